@@ -102,6 +102,7 @@ structure World where
   allRefIds : List Nat := []                    -- all_reference_ids
   cap : List Captured := []                     -- the list under `_DJC_FILL_GEN`
   events : List Ev := []
+  rcLeak : Nat := 0                             -- layers left on the caller's render_context
   gcds : Nat := 0                               -- number of `get_context_data` calls so far
 deriving Repr, Inhabited
 
@@ -230,6 +231,25 @@ def permKey : Str := "\x00perm".toList
 
 def rebase (ctx : Ctx) : Ctx := ctx.map (fun l => setL permKey .none l)
 
+/-- `Context.render_context` identity: the caller's `RenderContext` object is shared by the root
+Context and by isolated copies of it (`context_copy.render_context = context.render_context`);
+snapshots carry a copy.  Marked in layer 0 under a key no template can name. -/
+def rcRootKey : Str := "\x00rcroot".toList
+
+def hasRootRc (ctx : Ctx) : Bool :=
+  match ctx with
+  | l0 :: _ => hasL rcRootKey l0
+  | [] => false
+
+/-- `snapshot_context`: a new Context object with its own copy of the render context -/
+def snapshot (ctx : Ctx) : Ctx :=
+  rebase (match ctx with
+    | l0 :: rest => l0.filter (fun kv => kv.1 ≠ rcRootKey) :: rest
+    | [] => [])
+
+/-- the Context a page is rendered with: `Context(vars)` -/
+def rootCtx (vars : Layer) : Ctx := rebase [[(rcRootKey, .none)], vars]
+
 /-- the state of the same Context object once the template render that was using it has returned -/
 def liveLater (ctx : Ctx) : Ctx := ctx.filter (hasL permKey)
 
@@ -242,9 +262,10 @@ def forLayerToCopy (ctx : Ctx) : Option Layer :=
 
 /-- `make_isolated_context_copy` -/
 def isolatedCopy (ctx : Ctx) : Ctx :=
+  let l0 : Layer := if hasRootRc ctx then [(rcRootKey, .none)] else []
   let base : Ctx := match forLayerToCopy ctx with
-    | some l => [[], l]
-    | none => [[]]
+    | some l => [l0, l]
+    | none => [l0]
   let base := match ctxGet ctx compKey with
     | some v => ctxSetTop base compKey v
     | none => base
@@ -294,7 +315,7 @@ def getContextData (env : Env) (id : Nat) (ctx : Ctx) (kw : List (Str × Val)) :
       | .kwarg k => pure (kwGet k kw)
       | .const v => pure v
       | .inject key dflt => injectM env id ctx key dflt
-      | .selfId => pure (.str ('I' :: 'D' :: natStr id ++ ['Z']))
+      | .selfId => pure (.idBox id)
     getContextData env id ctx kw rest (setL out v acc)
 
 def isDynName (n : Str) : Bool := n = "dynamic".toList
@@ -431,9 +452,12 @@ mutual
           | some pc => pure (pc.path ++ [name])
           | none => throw (.keyError "component_context_cache")
         | none => pure [name]
+      -- `context.render_context.push({BLOCK_CONTEXT_KEY: …})` on the caller's RenderContext; popped only
+      -- after the snapshot was taken (no try / finally)
+      if parent.isNone && hasRootRc ctx then modify (fun w => { w with rcLeak := w.rcLeak + 1 })
       modify (registerRefW ctx id)
       let dyn := isDynName name
-      modify (fun w => { w with ctxCache := alSet id { name, id, path, fills, isDyn := dyn, defaultSlot := none, outer := outer.map rebase } w.ctxCache })
+      modify (fun w => { w with ctxCache := alSet id { name, id, path, fills, isDyn := dyn, defaultSlot := none, outer := outer.map snapshot } w.ctxCache })
       if !dyn then tick env (.gcd id)
       let (data, dynInner) ← (if dyn then
           match lookupL isKey kw with
@@ -449,7 +473,9 @@ mutual
             let l ← getContextData env id ctx kw d.data []
             pure (l, none)
           | none => throw .notRegistered : M (Layer × Option (Str × List (Str × Val) × Ctx)))
-      let snap := rebase (ctx ++ [data] ++ [[(compKey, .compRef id), (compVarsKey, compVars fills)]])
+      let snap := snapshot (ctx ++ [data] ++ [[(compKey, .compRef id), (compVarsKey, compVars fills)]])
+      -- `context.render_context.pop()`
+      if parent.isNone && hasRootRc ctx then modify (fun w => { w with rcLeak := w.rcLeak - 1 })
       let r : Renderer := { id, name, ctx := snap, dynInner, fills, outer := if parent.isSome then outer.map liveLater else outer }
       modify (fun w => { w with rendererCache := alSet id r w.rendererCache })
       match parent with
